@@ -40,6 +40,7 @@ class Ctx:
         self.div_zero = []     # (pc-index, denominator term) of divisions whose zero branch is open
         self.notes = {}
         self.decided = {}
+        self.defs = {}         # names of auxiliary variables introduced by definitional side constraints
 
     # -- variables -------------------------------------------------------------------------
     def freshvar(self, base, sort='real'):
@@ -110,7 +111,7 @@ class Ctx:
         r, m = self._check(list(extra_hyp) + [z3.Not(claim)], timeout_ms or QUERY_TIMEOUT_MS, want_model=True)
         return r, round(time.time() - t, 3), m
 
-    def prove_abstracted(self, claim, subst, lemmas, timeout_ms=None):
+    def prove_abstracted(self, claim, subst, lemmas, timeout_ms=None, fallback_hyp=None, drop_prefixes=()):
         """Let-abstraction (DESIGN 2.3 rule 4): replace the sub-terms subst=[(term, fresh_var)...]
         everywhere in side, pc and claim, add `lemmas` (facts about the fresh variables that were
         proved separately for the replaced terms) and try the smaller query.  The abstraction only
@@ -128,9 +129,12 @@ class Ctx:
                 if ps:
                     t = z3.substitute(t, *ps)
             return t
-        hyps = [sub(h) for h in self.side + self.pc] + list(lemmas)
+        hyps = [sub(h) for h in self.side + self.pc] + [sub(l) for l in lemmas]
         goal = z3.Not(sub(claim))
-        for h in cone_of_influence(goal, hyps):
+        if drop_prefixes:
+            gv = term_vars(goal)
+            hyps = [h for h in hyps if not any(v.startswith(tuple(drop_prefixes)) and v not in gv for v in term_vars(h))]
+        for h in cone_of_influence(goal, hyps, set(self.defs)):
             s.add(h)
         s.add(goal)
         r = str(s.check())
@@ -138,12 +142,32 @@ class Ctx:
         self.queries += 1
         if r == 'unsat':
             return r, round(time.time() - t, 3), None
-        r2, secs2, m = self.prove(claim, timeout_ms)
+        if fallback_hyp is None:
+            r2, secs2, m = self.prove(claim, timeout_ms)
+        else:
+            # the lemmas are phrased over the fresh variables: tie them to the replaced terms
+            ties = [b == a for ps in passes for a, b in ps]
+            r2, secs2, m = self.prove(claim, timeout_ms, extra_hyp=list(fallback_hyp) + ties)
         return r2, round(time.time() - t, 3), m
 
-    def reachable(self, timeout_ms=None):
-        """Vacuity guard: the path condition together with the side constraints is satisfiable."""
+    def reachable(self, timeout_ms=None, inputs=None, rng=None, tries=24):
+        """Vacuity guard: the path condition together with the side constraints is satisfiable.
+        With `inputs` (name -> z3 var) a few random rational assignments are tried first (cheap:
+        all auxiliary variables are then determined)."""
         t = time.time()
+        if inputs:
+            import random as _r
+            rng = rng or _r.Random(0)
+            for _ in range(tries):
+                extra = []
+                for k, v in inputs.items():
+                    if z3.is_int(v):
+                        extra.append(v == rng.randint(-3, 3))
+                    else:
+                        extra.append(v == realval(fractions.Fraction(rng.randint(-64, 64), 16)))
+                r, m = self._check(extra, 10000, want_model=True)
+                if r == 'sat':
+                    return r, round(time.time() - t, 3), m
         r, m = self._check([], timeout_ms or QUERY_TIMEOUT_MS, want_model=True)
         return r, round(time.time() - t, 3), m
 
@@ -195,9 +219,10 @@ def term_vars(t, cache=None):
     return out
 
 
-def cone_of_influence(goal, hyps):
+def cone_of_influence(goal, hyps, defined=frozenset()):
     """hypotheses connected to the goal through shared variables (dropping the others only
-    weakens the hypotheses: sound for unsat)."""
+    weakens the hypotheses: sound for unsat).  A hypothesis that mentions an auxiliary defined
+    variable (sqrt result...) joins only once that variable is live."""
     hv = [(h, term_vars(h)) for h in hyps]
     live = set(term_vars(goal))
     keep = [False] * len(hv)
@@ -205,6 +230,9 @@ def cone_of_influence(goal, hyps):
     while changed:
         changed = False
         for k, (h, vs) in enumerate(hv):
+            dv = vs & defined
+            if dv and not (dv & live):
+                continue
             if not keep[k] and (vs & live or not vs):
                 keep[k] = True
                 if not vs <= live:
@@ -378,6 +406,7 @@ class SymReal:
         r = c.freshvar('sqrt')
         # raw (unsimplified) radicand: keeps sub-terms intact for let-abstraction by substitution
         c.side += [r >= 0, r * r == self.e]
+        c.defs[r.decl().name()] = self.e      # raw radicand of this sqrt variable
         c.sqrts.append((key, se, r))
         return SymReal(r)
 
@@ -393,8 +422,10 @@ class SymReal:
         kr = z3.ToReal(k)
         half = z3.RealVal('1/2')
         d = self.e - kr
-        c.side += [d <= half, d >= -half,
-                   z3.Implies(z3.Or(d == half, d == -half), k % 2 == 0)]
+        # ties: either neighbour allowed (over-approximation of round-half-even: sound for proofs;
+        # harnesses that need a definite value assume |x-k| < 1/2, as the properties do)
+        c.side += [d <= half, d >= -half]
+        c.log.append(('rint', self.e, k))
         return SymReal(kr)
 
     def conjugate(self):
@@ -608,3 +639,12 @@ def eval_terms(ctx, inputs, values, terms, timeout_ms=20000):
         return None
     m = s.model()
     return [float(model_value(m, t, 30)) for t in terms]
+
+
+def twin_record(ctx, cap, inputs=None, rng=None):
+    """Reachability twin of a path: 'twin' (reachable: a model exists), 'twin-fail' (the path /
+    assumptions are unsatisfiable: every obligation on it would pass vacuously -> harness error),
+    'twin-unknown' (solver limit: reported, lowers assurance, not an error)."""
+    r, secs, m = ctx.reachable(cap, inputs=inputs, rng=rng)
+    st = {'sat': 'twin', 'unsat': 'twin-fail'}.get(r, 'twin-unknown')
+    return {'name': 'reachability-twin', 'status': st, 'secs': secs}
